@@ -27,7 +27,7 @@ DELIVERABLES in {wt}-out/ :
  - patch.diff : `git -C {wt} diff` of your change (source only, no tests, no new files outside gapic/).
  - demo.py : a standalone demonstration run as `PYTHONPATH=<tree>:/tmp/wt/_helpers /venv/bin/python demo.py` that exits 0 when <tree> is the unmodified repository and exits non-zero with a clear message when <tree> has your patch. Do not hard-code the tree path; `gapic` is resolved through PYTHONPATH (the /venv editable install points at /repo, PYTHONPATH overrides it -- print gapic.schema.api.__file__ at start so the tree in use is visible). Clean up temp dirs it creates.
  - notes.md : what the change is, why the existing tests do not notice, and exactly what is needed for it to manifest.
-Verify both directions yourself (e.g. `git -C {wt} stash` / `stash pop`, or a second clean worktree made with `git -C {wt} worktree add --detach /tmp/wt/{pid}{tag}-clean HEAD`, removed afterwards).
+Verify both directions yourself with a second clean worktree (NEVER use `git stash`: the stash is shared by all worktrees of the repository and other agents work concurrently) made with `git -C {wt} worktree add --detach /tmp/wt/{pid}{tag}-clean HEAD`, removed afterwards).
 
 SANDBOX FACTS: no network; there is NO protoc and NO pandoc binary. Descriptors must be built programmatically; /tmp/wt/_helpers/genhelper.py has `build_example()`, `field()`, `dep_files()` and `generate(target_fds, params)` (runs the generator in-process and writes the emitted library to a temp dir under /dev/shm; stubs pandoc), and /tmp/wt/_helpers/loopback_example.py shows how to drive an emitted client against loopback gRPC and HTTP servers. /venv/bin/python (3.12) has grpcio, google-api-core, proto-plus, requests, pytest, hypothesis. Service YAML / gRPC service-config files are passed via generator options `service-yaml=<path>` / `retry-config=<path>` (see gapic/utils/options.py). Keep CPU use modest (use -n 4 for pytest). Do not leave large files around.
 
